@@ -1,5 +1,6 @@
 import LZ4V.Proofs.BlockHub
 import LZ4V.Proofs.FastMain
+import LZ4V.Proofs.FastXProof
 /-!
 # C06 — compressed blocks conform to the block format (specification part)
 -/
@@ -40,5 +41,18 @@ theorem fast_compressor_conforms_exec (src : Array UInt8) (acceleration : Int) (
     ∃ seqs last, blk = serialize seqs last ∧ ValidParse [] seqs last src.toList ∧
       (∀ s ∈ seqs, 4 ≤ s.ml ∧ 1 ≤ s.off ∧ s.off ≤ 65535) ∧ endConditions seqs last = true ∧ covered seqs last = src.size :=
   (LZ4V.Model.Fast.compressFast_good src acceleration cap bound blk h).parse
+
+open LZ4V.Model.FastX in
+/-- **Streaming and dictionary blocks of the fast compressor conform too** (model `Model/FastX.lean` of one `LZ4_stream_t`: sources placed anywhere,
+    loaded and saved dictionaries, resets): every block returned by any operation sequence is the serialisation of sequences with match lengths ≥ 4
+    and offsets in 1..65535 that never reach before the history of the stream (`ValidParse` against it: every match byte-verified inside
+    `history ++ source`), whose last 5 bytes are literals, whose last match starts at least 12 bytes before the end, and which spell out exactly the
+    source — for every limited-output capacity that lets the call succeed. -/
+theorem stream_block_conforms (hashOf : Array UInt8 → Bool → Nat → Nat) (ops : List Op) (k addr : Nat) (data : Array UInt8) (acc : Int) (cap : Nat)
+    (blk : List UInt8) (hop : ops[k]? = some (.compress addr data acc cap)) (h : (run hashOf {} ops)[k]? = some (.block (some blk))) :
+    ∃ seqs last, blk = serialize seqs last ∧ ValidParse (histAt [] ops k) seqs last (histAt [] ops k ++ data.toList) ∧
+      (∀ s ∈ seqs, 4 ≤ s.ml ∧ 1 ≤ s.off ∧ s.off ≤ 65535) ∧ endConditions seqs last = true ∧ covered seqs last = data.size := by
+  obtain ⟨seqs, last, e, hwf, hv, h1, h2, h3⟩ := run_parsed hashOf ops {} [] JX_init (IsTail.refl _) k addr data acc cap blk hop h [] _ rfl (Or.inl rfl)
+  exact ⟨seqs, last, e, hv, fun s hs => ⟨(hwf s hs).1, h1 s hs, by have := (hwf s hs).2; omega⟩, h2, by rw [h3, Array.length_toList]⟩
 
 end LZ4V.C06
